@@ -252,7 +252,7 @@ def run(tier, seed):
     rep = Report(PID, tier, seed, 'model_checking')
     common.build_mmdump()
     common.build_mmdump(debug=True)
-    mirs = [common.dump_mir('mimium_lang')[0], common.dump_mir('state_tree')[0]]
+    mirs = common.prog_mirs()
     groups = ['st', 'ct', 'op', 'cl', 'gn', 'fx']
     files = common.corpus_files(groups, tier, seed)
     steps = 3 if quick else 6
